@@ -233,14 +233,10 @@ func (vt *Model) cnl(ps int) {
 	if ps == 0 {
 		ps = 1
 	}
-	// Moving down more lines than the screen has scrolls everything out,
-	// there is no point in doing it billions of times
-	if ps > vt.height() {
-		ps = vt.height()
-	}
-	for i := 0; i < ps; i += 1 {
-		vt.nel()
-	}
+	// CNL is CUD followed by a carriage return: it stops at the bottom
+	// margin, it does not scroll
+	vt.cud(ps)
+	vt.cursor.col = vt.margin.left
 }
 
 // Cursor Preceding Line (CPL) CSI Ps F
@@ -250,12 +246,9 @@ func (vt *Model) cpl(ps int) {
 	if ps == 0 {
 		ps = 1
 	}
-	if ps > vt.height() {
-		ps = vt.height()
-	}
-	for i := 0; i < ps; i += 1 {
-		vt.ri()
-	}
+	// CPL is CUU followed by a carriage return: it stops at the top
+	// margin, it does not scroll
+	vt.cuu(ps)
 	vt.cursor.col = vt.margin.left
 }
 
